@@ -1272,6 +1272,17 @@ class PlFn:
             fail(s, f"assignment to {name}, which is a module-level / builtin name the translation gives a meaning to")
 
     def tr_assign(self, s, tgt, value, rest, env, ind, ctx):
+        # `l = l + [e]` on a local list this function owns is, in the value model, what `l.append(e)` is (the new list replaces the
+        # only reference to the old one): rendered through that statement
+        if isinstance(tgt, ast.Name) and isinstance(value, ast.BinOp) and isinstance(value.op, ast.Add) \
+                and isinstance(value.left, ast.Name) and value.left.id == tgt.id and isinstance(value.right, ast.List) \
+                and len(value.right.elts) == 1 and not isinstance(value.right.elts[0], ast.Starred) \
+                and tgt.id in env and tgt.id in self.owned(env):
+            call = ast.Expr(value=ast.Call(func=ast.Attribute(value=ast.Name(id=tgt.id, ctx=ast.Load()), attr="append", ctx=ast.Load()),
+                                           args=[value.right.elts[0]], keywords=[]))
+            ast.copy_location(call, s)
+            ast.fix_missing_locations(call)
+            return self.tr_expr_stmt(call, rest, env, ind, ctx)
         if isinstance(tgt, ast.Name):
             self.check_target_name(s, tgt.id)
             self.check_not_iterated(s, tgt.id, env)
